@@ -32,6 +32,8 @@ var controlExpect = []struct {
 	{"R4", "CtlGlobalWrite#write-verifcontrols.counter", "violated"},
 	{"R4", "CtlGlobalWrite#write-verifcontrols.registry", "violated"},
 	{"R6", "CtlFloat#float-", "violated"},
+	{"R11", "CtlLocalTimeYear#local-time-Year", "violated"},
+	{"R11", "CtlLocalTimeFormat#local-time-Format", "violated"},
 }
 
 func runDetControls(r *Run) {
@@ -63,6 +65,7 @@ func runDetControls(r *Run) {
 	detConcurrency(r2, sc, S)
 	detGlobalWrites(r2, sc, S)
 	detFloat(r2, sc, S)
+	detLocalTime(r2, sc, S)
 	nOK := 0
 	for _, e := range controlExpect {
 		found := ""
@@ -83,7 +86,7 @@ func runDetControls(r *Run) {
 	// the clean control must carry no violated obligation
 	var noisy []string
 	for _, o := range r2.Obls {
-		if o.Status == "violated" && strings.Contains(o.Key, "CtlClean") {
+		if o.Status == "violated" && (strings.Contains(o.Key, "CtlClean") || strings.Contains(o.Key, "CtlUTCTimeYear") || strings.Contains(o.Key, "CtlTimestampOnly")) {
 			noisy = append(noisy, o.Key)
 		}
 	}
